@@ -2,16 +2,19 @@
    advertised flow-control window and maximum frame size allow, yet delivers the complete body as window updates
    arrive."  Only statements here; proofs by `exact`.  Model: Model/Flow.v; proofs: Proofs/Flow.v.
    The two source-dependent parameters come from the generated Gen/H2Src.v:
-     h2_client_settings_wakes   MClientConn.processSettings contains cc.cond.Broadcast()
-     h2_write_chunk             const maxFrameSize of MFramer.writeData *)
+     h2_client_settings_wakes      MClientConn.processSettings contains cc.cond.Broadcast()
+     h2_winupd_wakes_always        processWindowUpdate (server and client) broadcasts unconditionally
+     h2_client_settings_validated  MClientConn.processSettings calls s.Valid()
+     h2_write_chunk                const maxFrameSize of MFramer.writeData *)
 From Coq Require Import List ZArith Bool Lia.
 From MV Require Import Gen.H2Src Model.Flow Proofs.Flow.
 Import ListNotations.
 Open Scope Z_scope.
 
 (* the two sender configurations of the tree *)
-Definition cfg_server : cfg := mkCfg Server true h2_write_chunk.
-Definition cfg_client : cfg := mkCfg Client h2_client_settings_wakes h2_write_chunk.
+Definition cfg_server : cfg := mkCfg Server true h2_winupd_wakes_always true h2_write_chunk.
+Definition cfg_client : cfg :=
+  mkCfg Client h2_client_settings_wakes h2_winupd_wakes_always h2_client_settings_validated h2_write_chunk.
 
 (* ------------------------------------------------------------------ flow.add *)
 (* for all int32 operands: add stores the exact sum when it is an int32 and reports true, otherwise it leaves the
@@ -69,22 +72,22 @@ Proof.
 Qed.
 Print Assumptions c18_flow_safety.
 
-(* ... and it does not depend on the wake-up: it holds for the client without the broadcast too *)
-Theorem c18_flow_safety_any_cfg : forall sd wk, safety_at (mkCfg sd wk h2_write_chunk).
-Proof. intros sd wk cw i0 m0 evs Hcw Hi0 Hm0. exact (flow_safety (mkCfg sd wk h2_write_chunk) cw i0 m0 evs (eq_refl Lt) Hcw Hi0 Hm0). Qed.
+(* ... and it does not depend on any wake-up (nor on the client's validation): it holds whatever the switches say *)
+Theorem c18_flow_safety_any_cfg : forall sd wk wu vd, safety_at (mkCfg sd wk wu vd h2_write_chunk).
+Proof. intros sd wk wu vd cw i0 m0 evs Hcw Hi0 Hm0. exact (flow_safety (mkCfg sd wk wu vd h2_write_chunk) cw i0 m0 evs (eq_refl Lt) Hcw Hi0 Hm0). Qed.
 
 (* with a peer that never lets a credit exceed 2^31-1 (RFC 7540 6.9.1) every event is handled, there is no
    connection error and the accounting is exact: window + sent = credit on every stream and on the connection *)
-Theorem c18_flow_accounting_exact : forall sd wk cw i0 m0 evs,
+Theorem c18_flow_accounting_exact : forall sd wk wu vd cw i0 m0 evs,
   0 <= cw <= i32_max -> 0 <= i0 <= i32_max -> 16384 <= m0 <= 16777215 ->
   Forall ev_valid evs -> bounded cw i0 m0 evs ->
-  let g := mkCfg sd wk h2_write_chunk in
+  let g := mkCfg sd wk wu vd h2_write_chunk in
   let c := fst (run g (conn_new cw i0 m0) evs) in
   let fs := snd (run g (conn_new cw i0 m0) evs) in
   effective g (conn_new cw i0 m0) evs = evs /\ c_err c = false /\
   c_win c + sent_total fs = conn_credit cw i0 m0 evs /\
   forall s, In s (c_strs c) -> s_win s + sent_on (s_id s) fs = stream_credit cw i0 m0 (s_id s) evs.
-Proof. intros sd wk cw i0 m0 evs. exact (flow_exact (mkCfg sd wk h2_write_chunk) cw i0 m0 evs (eq_refl Lt)). Qed.
+Proof. intros sd wk wu vd cw i0 m0 evs. exact (flow_exact (mkCfg sd wk wu vd h2_write_chunk) cw i0 m0 evs (eq_refl Lt)). Qed.
 Print Assumptions c18_flow_accounting_exact.
 
 (* non-vacuity: a schedule with two streams, window shrinking below what was sent, a 2^31-1 connection update,
@@ -106,14 +109,16 @@ Qed.
 (* ------------------------------------------------------------------ liveness *)
 (* liveness_statement (Model/Flow.v): after ANY schedule of a conforming peer that leaves the stream with credit for
    its whole body and the connection with credit for the bodies of all opened streams, the sender's iterations
-   deliver the complete body in order.  The client instance is proved FROM THE SOURCE SWITCH: if
-   MClientConn.processSettings loses its cond.Broadcast() the generated h2_client_settings_wakes is false and this
-   proof no longer type-checks. *)
+   deliver the complete body in order.  The schedules include SETTINGS_INITIAL_WINDOW_SIZE decreases below the bytes
+   already sent (NEGATIVE stream windows, see c18_flow_negative_window_example).  Proved FROM THE SOURCE SWITCHES:
+   if MClientConn.processSettings loses its cond.Broadcast() (h2_client_settings_wakes = false) or
+   processWindowUpdate broadcasts only conditionally (h2_winupd_wakes_always = false) these proofs no longer
+   type-check. *)
 Theorem c18_flow_liveness : liveness_statement cfg_server /\ liveness_statement cfg_client.
 Proof.
   split.
-  - exact (flow_liveness cfg_server (eq_refl Lt) (or_intror (eq_refl Server))).
-  - exact (flow_liveness cfg_client (eq_refl Lt) (or_introl (eq_refl true))).
+  - exact (flow_liveness cfg_server (eq_refl Lt) (conj (or_intror (eq_refl Server)) (eq_refl true))).
+  - exact (flow_liveness cfg_client (eq_refl Lt) (conj (or_introl (eq_refl true)) (eq_refl true))).
 Qed.
 Print Assumptions c18_flow_liveness.
 
@@ -121,14 +126,14 @@ Print Assumptions c18_flow_liveness.
 Theorem c18_flow_liveness_general : liveness_general_statement cfg_server /\ liveness_general_statement cfg_client.
 Proof.
   split.
-  - exact (flow_liveness_general cfg_server (eq_refl Lt) (or_intror (eq_refl Server))).
-  - exact (flow_liveness_general cfg_client (eq_refl Lt) (or_introl (eq_refl true))).
+  - exact (flow_liveness_general cfg_server (eq_refl Lt) (conj (or_intror (eq_refl Server)) (eq_refl true))).
+  - exact (flow_liveness_general cfg_client (eq_refl Lt) (conj (or_introl (eq_refl true)) (eq_refl true))).
 Qed.
 Print Assumptions c18_flow_liveness_general.
 
 (* the client as it was before the repair (no broadcast in processSettings): the statement is FALSE *)
-Theorem c18_flow_liveness_refuted_without_wake : ~ liveness_statement (mkCfg Client false h2_write_chunk).
-Proof. exact (flow_liveness_refuted_without_wake h2_write_chunk (eq_refl Lt)). Qed.
+Theorem c18_flow_liveness_refuted_without_wake : forall wu vd, ~ liveness_statement (mkCfg Client false wu vd h2_write_chunk).
+Proof. intros wu vd. exact (flow_liveness_refuted_without_wake wu vd h2_write_chunk (eq_refl Lt)). Qed.
 Print Assumptions c18_flow_liveness_refuted_without_wake.
 
 (* non-vacuity / the witness side by side: SETTINGS initial window 0, a stream with 100 bytes parks, SETTINGS raises
@@ -140,11 +145,43 @@ Example c18_flow_liveness_example :
   100 <= stream_credit 65535 65535 16384 1 evs /\
   gl_bodies (gledger 65535 65535 16384 evs) <= conn_credit 65535 65535 16384 evs /\
   frames_of 1 (snd (run cfg_client conn_default (evs ++ [ESend 1]))) = [(0, 100)] /\
-  frames_of 1 (snd (run (mkCfg Client false h2_write_chunk) conn_default (evs ++ repeat (ESend 1) 50))) = [].
+  frames_of 1 (snd (run (mkCfg Client false true true h2_write_chunk) conn_default (evs ++ repeat (ESend 1) 50))) = [].
 Proof.
   cbn zeta. split.
   { apply Forall_forall. intros x Hx.
     repeat (destruct Hx as [Hx | Hx]; [subst x; cbn [ev_valid]; unfold i32_max; lia|]). destruct Hx. }
   split; [|vm_compute; repeat split; discriminate].
   exact refute_schedule_bounded.
+Qed.
+
+(* processWindowUpdate with the conditional broadcast (`if exhausted { cond.Broadcast() }`, exhausted :=
+   available() == 0 before the add), on EITHER side and whatever the SETTINGS wake-up: the statement is FALSE.
+   A window driven negative by a SETTINGS decrease is not "exhausted"; the WINDOW_UPDATE lifting it above zero
+   wakes nobody. *)
+Theorem c18_flow_liveness_refuted_with_conditional_wake : forall sd wk vd,
+  ~ liveness_statement (mkCfg sd wk false vd h2_write_chunk).
+Proof. intros sd wk vd. exact (flow_liveness_refuted_with_conditional_wake sd wk vd h2_write_chunk (eq_refl Lt)). Qed.
+Print Assumptions c18_flow_liveness_refuted_with_conditional_wake.
+
+(* non-vacuity, the witness side by side: the window goes NEGATIVE (-64535) after the SETTINGS decrease, the
+   WINDOW_UPDATE brings it to 34465 with stream credit 100000 = body; the hypotheses of liveness_statement hold;
+   with the unconditional broadcast the body is completed, with the conditional one it stays at 65535 bytes *)
+Example c18_flow_negative_window_example :
+  let evs := cond_wake_witness in
+  let neg := [EWinUpdConn 1000000; EOpen 1 100000; ESend 1; ESend 1; ESend 1; ESend 1; ESend 1; ESetInit 1000; ESend 1] in
+  map s_win (c_strs (fst (run cfg_server conn_default neg))) = [-64535] /\
+  Forall ev_valid evs /\ bounded 65535 65535 16384 evs /\
+  sl_open (sledger 1 evs) = true /\ sl_body (sledger 1 evs) = 100000 /\
+  100000 <= stream_credit 65535 65535 16384 1 evs /\
+  gl_bodies (gledger 65535 65535 16384 evs) <= conn_credit 65535 65535 16384 evs /\
+  sent_on 1 (snd (run cfg_server conn_default (evs ++ repeat (ESend 1) 8))) = 100000 /\
+  sent_on 1 (snd (run cfg_client conn_default (evs ++ repeat (ESend 1) 8))) = 100000 /\
+  sent_on 1 (snd (run (mkCfg Server true false true h2_write_chunk) conn_default (evs ++ repeat (ESend 1) 8))) = 65535 /\
+  sent_on 1 (snd (run (mkCfg Client true false true h2_write_chunk) conn_default (evs ++ repeat (ESend 1) 8))) = 65535.
+Proof.
+  cbn zeta. split; [vm_compute; reflexivity|]. split.
+  { apply Forall_forall. intros x Hx. unfold cond_wake_witness in Hx.
+    repeat (destruct Hx as [Hx | Hx]; [subst x; cbn [ev_valid]; unfold i32_max; lia|]). destruct Hx. }
+  split; [apply boundedb_sound; vm_compute; reflexivity|].
+  vm_compute. repeat split; discriminate.
 Qed.
